@@ -262,9 +262,10 @@ pub fn take_discovered_env() -> Vec<String> {
 /// no `serde`, no `verif_hooks`, its hash keys are whatever the OS hands it.
 fn run_plain_party(prog: &ProgSpec, party: &PartySpec) -> Result<Vec<(Outcome, Vec<ProbeRec>)>, String> {
     use std::io::Write;
-    let miri = party.build.as_deref() == Some("miri32");
+    let miri = matches!(party.build.as_deref(), Some("miri32") | Some("miribe"));
     let exe = if miri {
-        std::path::PathBuf::from(std::env::var("VERIF_MIRI32").map_err(|_| "no miri32 party available (not a C06 run through ./check, or no nightly toolchain)")?)
+        let var = if party.build.as_deref() == Some("miribe") { "VERIF_MIRIBE" } else { "VERIF_MIRI32" };
+        std::path::PathBuf::from(std::env::var(var).map_err(|_| "no miri32 / miribe party available (not a C06 run through ./check, or no nightly toolchain)")?)
     } else {
         plain_bin().ok_or("no plain build available (not a run through ./check)")?
     };
@@ -331,7 +332,7 @@ fn run_plain_party(prog: &ProgSpec, party: &PartySpec) -> Result<Vec<(Outcome, V
 
 fn run_process_party(prog: &ProgSpec, party: &PartySpec) -> Result<Vec<(Outcome, Vec<ProbeRec>)>, String> {
     use std::io::Write;
-    if matches!(party.build.as_deref(), Some("plain") | Some("miri32")) {
+    if matches!(party.build.as_deref(), Some("plain") | Some("miri32") | Some("miribe")) {
         return run_plain_party(prog, party);
     }
     let exe = match party.build.as_deref() {
@@ -826,9 +827,17 @@ pub fn make_world(plan: &Plan, seed: u64, idx: u64) -> (World, String, Prng) {
             }
             // ... a party on a machine with 32-bit words (the plain crate interpreted by Miri for
             // i686-unknown-linux-gnu; slow, so only for the small word-size programs)
-            if src.starts_with(gen::WORD_MARKER) {
+            // (thorough tier: Miri parties for one word-size program in eight, 80 or so in all)
+            let with_miri = plan.tier.generated <= 10_000 || p.chance(1, 8);
+            if src.starts_with(gen::WORD_MARKER) && !with_miri {
+                let st = |mode: Mode| Step { fn_name: "main".into(), opts: Opts { register: false, dedup: true }, mode, perm: vec![], cap: 0, warm_src: None, src_offset: 0 };
+                parties.push(PartySpec { keys, steps: vec![st(Mode::Src), st(Mode::Default)], process: true, alloc_limit: None, env_flip: vec![], build: Some("plain".into()), cpus: None });
+            }
+            if src.starts_with(gen::WORD_MARKER) && with_miri {
                 let st = |mode: Mode| Step { fn_name: "main".into(), opts: Opts { register: false, dedup: true }, mode, perm: vec![], cap: 0, warm_src: None, src_offset: 0 };
                 parties.push(PartySpec { keys, steps: vec![st(Mode::Default)], process: true, alloc_limit: None, env_flip: vec![], build: Some("miri32".into()), cpus: None });
+                // ... and on a big-endian machine (Miri for s390x-unknown-linux-gnu)
+                parties.push(PartySpec { keys, steps: vec![st(Mode::Default)], process: true, alloc_limit: None, env_flip: vec![], build: Some("miribe".into()), cpus: None });
                 parties.push(PartySpec { keys, steps: vec![st(Mode::Src), st(Mode::Default)], process: true, alloc_limit: None, env_flip: vec![], build: Some("plain".into()), cpus: None });
             }
             // ... and one built with default cargo features in release mode (no serde, no verif_hooks)
